@@ -694,9 +694,9 @@ func main() {
 	}
 
 	sCorpus := h.stream("corpus", 1<<30, rng)
-	sPairs := h.stream("pairs", q(22), rng)
+	sPairs := h.stream("pairs", q(20), rng)
 	sTriples := h.stream("triples", q(10), rng)
-	sCont := h.stream("contents", q(22), rng)
+	sCont := h.stream("contents", q(20), rng)
 	sContR := h.stream("contents-random", q(12), rng)
 	sSoup := h.stream("soup", q(20), rng)
 	sText := h.stream("text", q(4), rng)
@@ -711,6 +711,10 @@ func main() {
 	h.genText(sText, 40000*mul)
 	h.genSuite(sSuite, thorough)
 
+	// parsed rules and declarations (compound serializers), see compound.go
+	ch := &cpHarness{rng: rng.Fork(), quota: q(14), failSeen: map[string]bool{}, perKind: map[string]int{}}
+	ch.generate(30000 * mul)
+
 	w := vlib.NewWriter(*out)
 	// failing inputs first (shrunk, deduplicated; at most 60 are evaluated by the model)
 	for i, o := range h.failures {
@@ -718,6 +722,12 @@ func main() {
 			break
 		}
 		emit(w, h.failKind[i], o)
+	}
+	for i, o := range ch.failures {
+		if i >= 40 {
+			break
+		}
+		emitCompound(w, o)
 	}
 	for _, name := range h.order {
 		for _, c := range h.streams[name].res {
@@ -728,9 +738,14 @@ func main() {
 			emit(w, c.kind, o)
 		}
 	}
+	for _, o := range ch.res {
+		emitCompound(w, o)
+	}
 	w.Close()
 
 	st := map[string]interface{}{
+		"compound_sources_parsed": ch.nSrc, "compounds_round_tripped": ch.nRun, "compound_roundtrip_failures": ch.nFail,
+		"distinct_shrunk_compound_failures": len(ch.failures), "compounds_per_kind": ch.perKind,
 		"inputs_run_on_go_side": h.nRun, "error_free_inputs_round_tripped": h.nUsable,
 		"go_roundtrip_failures": h.nFail, "distinct_shrunk_failures": len(h.failures),
 		"per_stream_run_usable": h.perKind, "cases_written": w.N(),
